@@ -17,6 +17,9 @@ ALL_ASPECTS = ("shape", "options", "fresh", "context", "source", "adaptor-char",
 ASPECTS = {
     # what each property needs from the entry points (a clause that a property does not state is not checked under its name)
     "C01.entry": ("shape", "options", "fresh", "context", "source", "adaptor-char", "tail-ok", "tail-verdict", "utf8"),
+    # the value is the *document's* content only if every entry point feeds the core exactly the input's characters and
+    # returns the core's value unchanged
+    "C02.entry": ("source", "adaptor-char", "tail-ok"),
     "C05.entry": ("fresh", "adaptor-len", "tail-ok"),
     "C07.entry": ("shape", "fresh", "adaptor-len", "tail-err"),
     # the leniency flags act inside the string scanner only: no entry point branches on them or decodes its input differently
